@@ -1743,7 +1743,7 @@ func checkC12(c *lib.Ctx) {
 	if model.Seq {
 		r.Note("every modellable sequence is also evaluated by the Lean driver op xfer.seq (switches wtm=%d rfm=%d taken from the implementation)", model.WTM, model.RFM)
 	}
-	root, err := os.MkdirTemp("", "vh-c12-")
+	root, err := lib.MkScratch("vh-c12-")
 	if err != nil {
 		r.Fail(lib.Failure{Kind: "tie", Key: "tmpdir", What: err.Error()})
 		return
